@@ -339,6 +339,11 @@ func genC01(c *Ctx) {
 					}
 				}
 				// probes: the property's own predicates on the real code
+				if !ci && N <= 64 {
+					for k := 0; k < c.Scale(2, 8); k++ {
+						probeVecRefs(c, s, N)
+					}
+				}
 				for k := 0; k < c.Scale(2, 6); k++ {
 					pat := c.pat()
 					a := patVec(r, pat, N, q)
